@@ -501,6 +501,7 @@ func runC13(r *Report, tier string) {
 		}
 	}
 	checkStructureEncodersIV(r, "R13.2")
+	checkUnprotectedEncoderTagFree(r, "R13.2")
 	// the IV check itself: both directions
 	{
 		np := 0
@@ -650,6 +651,89 @@ func checkBucketEncoders(r *Report, rule string) {
 		}
 		r.floor(rule, np, 2, "success paths of "+shortFn(enc))
 	}
+}
+
+// checkUnprotectedEncoderTagFree: the unprotected bucket is decoded as part
+// of the enclosing structure, i.e. under the envelope mode. When that mode
+// forbids tags, whatever the bucket encoder emits from a (validated) map must
+// have passed that restriction too - header values are arbitrary Go values
+// and the encoder would otherwise emit tags (cbor.Tag, big integers, time,
+// user types) that the library's own decoders refuse (D6; R08.6 / R13.2).
+func checkUnprotectedEncoderTagFree(r *Report, rule string) {
+	P := r.P
+	// envelope modes: the modes the structure decoders hand the whole input to
+	forb := P.cborConst("TagsForbidden")
+	envForbids := map[string]bool{}
+	anyEnv := false
+	for _, mc := range P.modeConfigs() {
+		if !mc.enc && mc.global != "" && mc.opts["TagsMd"] == forb && len(mc.unknown) == 0 {
+			envForbids[mc.global] = true
+		}
+	}
+	envelopeStrict := false
+	for _, T := range P.structureTypes() {
+		D := P.methodOf(T, "UnmarshalCBOR")
+		if D == nil {
+			continue
+		}
+		for f := range P.reachable([]*ssa.Function{D}) {
+			for _, ci := range callsIn(f, nil) {
+				c := ci.Common()
+				if !(c.IsInvoke() && c.Method.Name() == "Unmarshal" && isCBORMode(c.Value.Type()) && len(c.Args) == 2) {
+					continue
+				}
+				dst := c.Args[1].Type()
+				if mi, ok := c.Args[1].(*ssa.MakeInterface); ok {
+					dst = mi.X.Type()
+				}
+				if P.isWireStructPtr(dst) {
+					anyEnv = true
+					if g, ok := P.isModeLoad(P.terms.of(c.Value), false); ok && envForbids[g] {
+						envelopeStrict = true
+					}
+				}
+			}
+		}
+	}
+	enc := P.methodOf(P.mustNamed("UnprotectedHeader"), "MarshalCBOR")
+	if enc == nil || !anyEnv {
+		undecidedf("anchor not found: UnprotectedHeader.MarshalCBOR / envelope decode calls")
+	}
+	n := 0
+	for _, x := range P.factsOf(enc).exits {
+		if x.kind == exitFailure {
+			continue
+		}
+		b := P.resolveValue(x.results[0])
+		if _, isConst := byteArr(b); isConst {
+			continue // the constant empty map
+		}
+		n++
+		o := r.ob(rule, shortFn(enc)+":tag-free:"+exitID(P, enc, x), enc, x.ret, "bytes emitted for the unprotected bucket have passed the envelope mode's tag restriction (the decoders read the bucket under that mode)")
+		if !envelopeStrict {
+			o.ok("the envelope mode admits tags", false)
+			continue
+		}
+		fs := exitFacts(P, x)
+		ok := false
+		for _, m := range fs.matchAll([]factPat{fp(okp("call<invoke:cbor.DecMode.Wellformed>(%M, %B)"))}, nil) {
+			if g, isM := P.isModeLoad(m["M"], false); isM && envForbids[g] && (m["B"].eq(x.results[0]) || m["B"].eq(b)) {
+				ok = true
+			}
+		}
+		o.check(ok, "ok(tags-forbidden mode.Wellformed(result))", "the encoder returns "+truncate(x.results[0].String(), 100)+" without checking it under the tags-forbidden envelope mode: a header value that encodes to a CBOR tag is emitted, and every structure decoder then refuses the library's own output")
+	}
+	r.floor(rule, n, 1, "non-constant success exits of the unprotected bucket encoder")
+}
+
+// isWireStructPtr: *T (possibly wrapped in an interface at the call) with T a wire struct.
+func (P *Prog) isWireStructPtr(t types.Type) bool {
+	for _, w := range P.wireStructs() {
+		if shortType(t) == "*"+w.Obj().Name() {
+			return true
+		}
+	}
+	return false
 }
 
 // checkStructureEncodersIV: every structure encoder carries ok(cross-bucket
